@@ -354,24 +354,43 @@ GETTZ_STUTTER = ["with self._cache_lock", "or isinstance(rv", "or rv is None", "
 
 
 def build_line_table(world):
-    F, tz = world.F, world.tz
+    """code object -> {lineno: label}.  For the dateutil functions the table comes from the fail-closed
+    AST translator (harness/factory_cfg.py), the same one that generates coq/gen/FacCfgGen.v, whose
+    control-flow tables are proved equal to the ones `step` follows; only the two dictionary accesses
+    inside the stdlib's WeakValueDictionary.setdefault are located by their text."""
+    import factory_cfg
+    F = world.F
+    G = type(world.gettz)
+    src = os.path.dirname(os.path.dirname(inspect.getsourcefile(F)))
+    tab = {}
+    for func in (F._TzOffsetFactory.__call__, F._TzStrFactory.__call__, F._TzFactory.instance, G.__call__,
+                 G.cache_clear, G.set_cache_size, F._TzSingleton.__call__):
+        tab[func.__code__] = factory_cfg.lines_for(func, src)     # TranslateError is a ValueError
+    tab[weakref.WeakValueDictionary.setdefault.__code__] = _classify(
+        weakref.WeakValueDictionary.setdefault, [("o = self.data[key]()", "sdread"),
+                                                 ("self.data[key] = KeyedRef(", "sdwrite")], [], strict=False)
+    return tab
+
+
+def build_line_table_text(world):
+    """fallback used ONLY to keep searching for a concrete failing schedule when the translator has
+    rejected the source (that rejection is itself reported): statements located by their text"""
+    F = world.F
     G = type(world.gettz)
     tab = {}
 
-    def add(func, rules, stutter, strict=True):
-        code = func.__code__
-        tab[code] = _classify(func, rules, stutter, strict)
+    def add(func, rules, stutter):
+        tab[func.__code__] = _classify(func, rules, stutter, strict=False)
     add(F._TzOffsetFactory.__call__, FACTORY_RULES, FACTORY_STUTTER)
     add(F._TzStrFactory.__call__, FACTORY_RULES, FACTORY_STUTTER)
     add(F._TzFactory.instance, [("type.__call__(", "cons")], [])
     add(G.__call__, GETTZ_RULES, GETTZ_STUTTER)
-    add(G.cache_clear, [("self.__instances = ", "cnew"), ("strong_cache.clear()", "cclr")], ["with self._cache_lock"])
-    add(G.set_cache_size, [("strong_cache_size = size", "sset"), ("while len(", "sloop")],
-        ["with self._cache_lock", ".popitem("])
+    add(G.cache_clear, [("self.__instances = ", "cnew"), ("strong_cache.clear()", "cclr")], [])
+    add(G.set_cache_size, [("strong_cache_size = size", "sset"), ("while len(", "sloop")], [])
     add(F._TzSingleton.__call__, [("if cls.__instance is None", "uchk"), ("cls.__instance = ", "unew"),
                                   ("return cls.__instance", "uret")], [])
     add(weakref.WeakValueDictionary.setdefault, [("o = self.data[key]()", "sdread"),
-                                                ("self.data[key] = KeyedRef(", "sdwrite")], [], strict=False)
+                                                ("self.data[key] = KeyedRef(", "sdwrite")], [])
     return tab
 
 
